@@ -21,11 +21,14 @@
       (`dirExists (parentOf …)`) — REQUIRED for the statement as it stands (`NeedsBackupDirs`, evaluated): with `-B bak/` and no
       `bak`, `make_backup_for` creates `bak` — a path other than the target and the backup differs afterwards —; with `bak` a
       regular file the `rename` fails and the run ends with exit status 2.  Both hold for a backup name without slash (`C18_run`).
-    * NOT needed: `backupName o name ≠ name` (a theorem: the backup name is longer, `RunB.backupName_ne`); anything about what
-      is at the backup name before (`Fs.apply (.rename a b)` needs `a` present and the directory of `b` a directory; whatever is
-      at `b` is replaced: `BackupNameTaken`); `backupName o name ≠ pname` (the patch file has been read by then; if the backup
-      name IS the patch file's name the patch file is replaced by the backup — the statement says so:
-      `lookup (backupName o name) = old file`).
+    * the backup name is not that of a directory (`hbnd`) — REQUIRED since the model change "a file is not renamed onto a directory"
+      (`Fs.apply (.rename a b)`: EISDIR): with `f.orig` a directory the `rename` fails and the run ends with exit status 2, the tree
+      untouched (`BackupNameTaken`, evaluated).
+    * NOT needed: `backupName o name ≠ name` (a theorem: the backup name is longer, `RunB.backupName_ne`); anything else about
+      what is at the backup name before (`Fs.apply (.rename a b)` needs `a` present, the directory of `b` a directory and `b` not
+      a directory; whatever else is at `b` — a file, a link — is replaced: `BackupNameTaken`); `backupName o name ≠ pname` (the
+      patch file has been read by then; if the backup name IS the patch file's name the patch file is replaced by the backup — the
+      statement says so: `lookup (backupName o name) = old file`).
 
   Second part — C04 / C13 end to end (`C04_run_rejected_filler`, `C04_run_rejected`, `C04_run_rejected_foreign`): the same
   situation without `-b`, the diff has ONE hunk and `locate_hunk` does not find it: exit status 1, the target re-written with its own
@@ -70,7 +73,7 @@ theorem baseSection_of_diff (ho : RunOptsB o name pname) (hs0 : CleanStart s0) (
       BaseSection o (forced o) (loopStart s0 (diffLines filler old new oldt newt hs)) name bytes m patch0
         { patch0 with hunks := hs } info par1 par2 r ∧
       r.failed = 0 ∧ r.msgs = [] ∧
-      render o.newlineOutput r.out = renderLines o.newlineOutput (splice (splitLines bytes) 0 hs) ∧
+      render o.newlineOutput r.out = Render.renderText o.newlineOutput (splice (splitLines bytes) 0 hs) ∧
       par2.s.eof = true := by
   have hfl : ∀ l ∈ filler, l.newline ≠ .none := by
     intro l hl
@@ -90,7 +93,7 @@ theorem baseSection_of_diff (ho : RunOptsB o name pname) (hs0 : CleanStart s0) (
     applyPatch_valid (splitLines bytes) hs { patch0 with hunks := hs } (applyOptsOf o)
       (Option.map (fun l => List.map (fun a => !List.isEmpty a && List.head? a != some 110) l) s0.tty)
       hvalid (by rw [hrev]; rfl) ho.base.noDefine ho.base.fuzz
-  refine ⟨patch0, info, par1, par2, r, ?_, hrfail, hrmsgs ho.base.quiet, by rw [render, hrout], heof⟩
+  refine ⟨patch0, info, par1, par2, r, ?_, hrfail, hrmsgs ho.base.quiet, C01.render_of_lines _ ho.base.noDefine hap hrout, heof⟩
   exact {
     operand := ho.base.operand, noOut := ho.base.noOut, pathNe := hname, cwd := hs0.cwd, hdr := hhdr,
     fmt := Or.inl hf, op := hop, pre := hpre, body := hbody, fmt2 := rfl, op2 := hop, newMode2 := hnm, file := htarget,
@@ -115,25 +118,28 @@ theorem runPatch_of_end (ho : FileOpts o pname) (hs0 : CleanStart s0) (hpn : pna
   exact runPatch_of_run o s0 s' ho.noHelp ho.noVersion hrunP
 
 /-- **C18, the whole program on the text of a unified diff, `-b`** (inert filler allowed in front of the header; the target may
-    sit in a directory of the tree; any `-B` / `-z` whose directories are there) -/
+    sit in a directory of the tree; any `-B` / `-z` whose directories are there).
+    CHANGED with the model change "a file is not renamed onto a directory": `hbnd` is new — without it the statement is false
+    (`BackupNameTaken`: `f.orig` a directory, exit status 2). -/
 theorem C18_run_filler (ho : RunOptsB o name pname) (hb : o.saveBackup = true) (hreal : o.dryRun = false) (hs0 : CleanStart s0)
     (hbu : s0.backedUp = [])
     (hname : name ≠ []) (hdir : s0.fs.dirExists (parentOf name) = true)
     (hbdirs : DirsThere s0.fs (backupName o name)) (hbdir : s0.fs.dirExists (parentOf (backupName o name)) = true)
+    (hbnd : ∀ m', s0.fs.lookup (backupName o name) ≠ some (.dir m'))
     (hpn : pname ≠ []) (hpd : pname ≠ [45])
     (htarget : s0.fs.lookup name = some (.file bytes m)) (hw : m &&& writeMask ≠ 0)
     (hpatch : s0.fs.lookup pname = some (.file (patchText filler old new oldt newt hs) pm))
     (hd : UnifiedDiff filler old new oldt newt hs) (hvalid : Valid (splitLines bytes) 0 0 hs) :
     (runPatch o s0).1 = 0 ∧
-    (runPatch o s0).2.fs.lookup name = some (.file (renderLines o.newlineOutput (splice (splitLines bytes) 0 hs)) m) ∧
+    (runPatch o s0).2.fs.lookup name = some (.file (Render.renderText o.newlineOutput (splice (splitLines bytes) 0 hs)) m) ∧
     (runPatch o s0).2.fs.lookup (backupName o name) = some (.file bytes m) ∧
     (∀ q, q ≠ name → q ≠ backupName o name → (runPatch o s0).2.fs.lookup q = s0.fs.lookup q) ∧
     (runPatch o s0).2.backedUp = [backupName o name] ∧
     (runPatch o s0).2.trace = s0.trace ++ [.tmpCreate, .tmpUnlink, .tmpCreate, .tmpUnlink] ++
-      backupOps o name (renderLines o.newlineOutput (splice (splitLines bytes) 0 hs)) m := by
+      backupOps o name (Render.renderText o.newlineOutput (splice (splitLines bytes) 0 hs)) m := by
   obtain ⟨patch0, info, par1, par2, r, H, hfail, hmsgs, hrender, heof⟩ := baseSection_of_diff ho hs0 hname htarget hw hd hvalid
   obtain ⟨s', hrun, hfs, htr, hbk, hhf, _, hdone⟩ := processSection_backup H hfail hmsgs hb hreal hdir
-    (by show s0.backedUp.contains _ = false; rw [hbu]; rfl) hbdirs hbdir
+    (by show s0.backedUp.contains _ = false; rw [hbu]; rfl) hbdirs hbdir hbnd
   rw [runPatch_of_end ho.file hs0 hpn hpd hpatch hd s' par2 hrun hdone heof]
   have hnf : s'.hadFailure = false := by rw [hhf]; exact hs0.noFailure
   have hne : name ≠ backupName o name := fun e => backupName_ne o name e.symm
@@ -170,25 +176,26 @@ end
 /-! ### the statements for a diff of `name` against itself in the working directory, no filler -/
 
 /-- **C18, end to end.**  `patch -b [-B pfx] [-z sfx] -i pname name`, target and backup name in the working directory (no slash
-    in either): exit status 0, the target holds the intended result with its old mode, the backup name holds the old bytes with
-    the old mode, nothing else in the tree differs. -/
+    in either; the backup name not that of a directory: `hbnd`, new): exit status 0, the target holds the intended result with its
+    old mode, the backup name holds the old bytes with the old mode, nothing else in the tree differs. -/
 theorem C18_run (o : Options) (s0 : DState) (name pname bytes oldt newt : Bytes) (m pm : Nat) (hs : List Hunk)
     (ho : RunOptsB o name pname) (hb : o.saveBackup = true) (hreal : o.dryRun = false) (hs0 : CleanStart s0)
     (hbu : s0.backedUp = [])
-    (hn : flatName name) (hbn : ∀ c ∈ backupName o name, c ≠ SLASHB) (hpn : pname ≠ []) (hpd : pname ≠ [45])
+    (hn : flatName name) (hbn : ∀ c ∈ backupName o name, c ≠ SLASHB)
+    (hbnd : ∀ m', s0.fs.lookup (backupName o name) ≠ some (.dir m')) (hpn : pname ≠ []) (hpd : pname ≠ [45])
     (htarget : s0.fs.lookup name = some (.file bytes m)) (hw : m &&& writeMask ≠ 0)
     (hot : stampOk oldt) (hnt : stampOk newt)
     (hpatch : s0.fs.lookup pname = some (.file (diffText name name oldt newt hs) pm))
     (hh : DiffHunks hs) (hvalid : Valid (splitLines bytes) 0 0 hs) :
     (runPatch o s0).1 = 0 ∧
-    (runPatch o s0).2.fs.lookup name = some (.file (renderLines o.newlineOutput (splice (splitLines bytes) 0 hs)) m) ∧
+    (runPatch o s0).2.fs.lookup name = some (.file (Render.renderText o.newlineOutput (splice (splitLines bytes) 0 hs)) m) ∧
     (runPatch o s0).2.fs.lookup (backupName o name) = some (.file bytes m) ∧
     (∀ q, q ≠ name → q ≠ backupName o name → (runPatch o s0).2.fs.lookup q = s0.fs.lookup q) ∧
     (runPatch o s0).2.backedUp = [backupName o name] ∧
     (runPatch o s0).2.trace = s0.trace ++ [.tmpCreate, .tmpUnlink, .tmpCreate, .tmpUnlink] ++
-      backupOps o name (renderLines o.newlineOutput (splice (splitLines bytes) 0 hs)) m :=
+      backupOps o name (Render.renderText o.newlineOutput (splice (splitLines bytes) 0 hs)) m :=
   C18_run_filler (filler := []) ho hb hreal hs0 hbu hn.1 (dirExists_parent_of_noSlash s0.fs hn.2.1)
-    (dirsThere_flat s0.fs hbn) (dirExists_parent_of_noSlash s0.fs hbn) hpn hpd htarget hw hpatch
+    (dirsThere_flat s0.fs hbn) (dirExists_parent_of_noSlash s0.fs hbn) hbnd hpn hpd htarget hw hpatch
     (unifiedDiff_of_flat hn hot hnt hh) hvalid
 
 /-- `name ++ ".orig"` has no slash when `name` has none -/
@@ -200,21 +207,22 @@ theorem orig_flat {name : Bytes} (h : ∀ c ∈ name, c ≠ SLASHB) : ∀ c ∈ 
     intro e; subst e
     revert h1; decide
 
-/-- **C18, end to end, plain `-b`** (no -B, no -z): the backup is `name.orig` -/
+/-- **C18, end to end, plain `-b`** (no -B, no -z): the backup is `name.orig` (which is not a directory: `hbnd`, new) -/
 theorem C18_run_orig (o : Options) (s0 : DState) (name pname bytes oldt newt : Bytes) (m pm : Nat) (hs : List Hunk)
     (ho : RunOptsB o name pname) (hb : o.saveBackup = true) (hpre : o.backupPrefix = []) (hsuf : o.backupSuffix = [])
     (hreal : o.dryRun = false) (hs0 : CleanStart s0) (hbu : s0.backedUp = [])
-    (hn : flatName name) (hpn : pname ≠ []) (hpd : pname ≠ [45])
+    (hn : flatName name) (hbnd : ∀ m', s0.fs.lookup (name ++ str ".orig") ≠ some (.dir m')) (hpn : pname ≠ []) (hpd : pname ≠ [45])
     (htarget : s0.fs.lookup name = some (.file bytes m)) (hw : m &&& writeMask ≠ 0)
     (hot : stampOk oldt) (hnt : stampOk newt)
     (hpatch : s0.fs.lookup pname = some (.file (diffText name name oldt newt hs) pm))
     (hh : DiffHunks hs) (hvalid : Valid (splitLines bytes) 0 0 hs) :
     (runPatch o s0).1 = 0 ∧
-    (runPatch o s0).2.fs.lookup name = some (.file (renderLines o.newlineOutput (splice (splitLines bytes) 0 hs)) m) ∧
+    (runPatch o s0).2.fs.lookup name = some (.file (Render.renderText o.newlineOutput (splice (splitLines bytes) 0 hs)) m) ∧
     (runPatch o s0).2.fs.lookup (name ++ str ".orig") = some (.file bytes m) ∧
     (∀ q, q ≠ name → q ≠ name ++ str ".orig" → (runPatch o s0).2.fs.lookup q = s0.fs.lookup q) := by
   have e : backupName o name = name ++ str ".orig" := (C18.backupName_spec o name).1 hpre hsuf
-  have h := C18_run o s0 name pname bytes oldt newt m pm hs ho hb hreal hs0 hbu hn (by rw [e]; exact orig_flat hn.2.1) hpn hpd
+  have h := C18_run o s0 name pname bytes oldt newt m pm hs ho hb hreal hs0 hbu hn (by rw [e]; exact orig_flat hn.2.1)
+    (by rw [e]; exact hbnd) hpn hpd
     htarget hw hot hnt hpatch hh hvalid
   rw [e] at h
   exact ⟨h.1, h.2.1, h.2.2.1, h.2.2.2.1⟩
@@ -351,7 +359,8 @@ theorem rejSection_of_diff (ho : RejOpts o name pname) (hs0 : CleanStart s0) (hn
     applyPatch_reject_one (splitLines bytes) h { patch0 with hunks := [h] } (applyOptsOf o)
       (Option.map (fun l => List.map (fun a => !List.isEmpty a && List.head? a != some 110) l) s0.tty)
       hrev rfl hloc hrloc hru
-  refine ⟨patch0, info, par1, par2, r, ?_, hrfail, ?_, by rw [render, hrout], heof⟩
+  refine ⟨patch0, info, par1, par2, r, ?_, hrfail, ?_,
+    Render.render_of_map_line _ hrout (Render.linesTerminated_splitLines bytes), heof⟩
   · exact {
       operand := ho.base.operand, noOut := ho.base.noOut, pathNe := hname, cwd := hs0.cwd, hdr := hhdr,
       fmt := Or.inl hf, op := hop, pre := hpre, body := hbody, fmt2 := rfl, op2 := hop, newMode2 := hnm, file := htarget,
@@ -525,9 +534,10 @@ theorem applies :
     (runPatch ob s0).2.fs.lookup orig = some (.file bytes 0o644) ∧
     ∀ q, q ≠ name → q ≠ orig → (runPatch ob s0).2.fs.lookup q = s0.fs.lookup q := by
   have h := C18_run_orig ob s0 name pname bytes oldt newt 0o644 0o644 [hk] runOptsB rfl rfl rfl rfl ⟨rfl, rfl, rfl, rfl, rfl, rfl⟩ rfl
-    (by decide) (by decide) (by decide) rfl (by decide) (by decide) (by decide) rfl diffHunks (validB_sound _ _ _ _ (by decide))
+    (by decide) (by rw [str_orig]; exact notDir_of_none (by decide)) (by decide) (by decide) rfl (by decide) (by decide) (by decide) rfl
+    diffHunks (validB_sound _ _ _ _ (by decide))
   have e : name ++ str ".orig" = orig := by rw [str_orig]; rfl
-  have hm : renderLines ob.newlineOutput (splice (splitLines bytes) 0 [hk]) = result := by decide
+  have hm : Render.renderText ob.newlineOutput (splice (splitLines bytes) 0 [hk]) = result := by decide
   rw [e, hm] at h
   exact h
 
@@ -536,9 +546,11 @@ theorem applies_trace :
     (runPatch ob s0).2.backedUp = [backupName ob name] ∧
     (runPatch ob s0).2.trace = [.tmpCreate, .tmpUnlink, .tmpCreate, .tmpUnlink] ++ backupOps ob name result 0o644 := by
   have h := C18_run ob s0 name pname bytes oldt newt 0o644 0o644 [hk] runOptsB rfl rfl ⟨rfl, rfl, rfl, rfl, rfl, rfl⟩ rfl
-    (by decide) (orig_flat (by decide)) (by decide) (by decide) rfl (by decide) (by decide) (by decide) rfl diffHunks
+    (by decide) (orig_flat (by decide))
+    (by rw [(C18.backupName_spec ob name).1 rfl rfl, str_orig]; exact notDir_of_none (by decide)) (by decide) (by decide) rfl (by decide) (by decide) (by decide) rfl
+    diffHunks
     (validB_sound _ _ _ _ (by decide))
-  have hm : renderLines ob.newlineOutput (splice (splitLines bytes) 0 [hk]) = result := by decide
+  have hm : Render.renderText ob.newlineOutput (splice (splitLines bytes) 0 [hk]) = result := by decide
   rw [hm] at h
   exact ⟨h.2.2.2.2.1, h.2.2.2.2.2⟩
 
@@ -584,9 +596,9 @@ theorem applies_suffix :
     { base := { operand := rfl, noOut := rfl, noReverse := rfl, noDefine := rfl, fuzz := by decide, quiet := rfl },
       file := { patchFile := rfl, noDir := rfl, noHelp := rfl, noVersion := rfl, noContext := rfl, noNormal := rfl, noEd := rfl } }
     rfl rfl ⟨rfl, rfl, rfl, rfl, rfl, rfl⟩ rfl
-    (by decide) (by decide) (by decide) (by decide) rfl (by decide) (by decide) (by decide) rfl diffHunks
+    (by decide) (by decide) (notDir_of_none (by decide)) (by decide) (by decide) rfl (by decide) (by decide) (by decide) rfl diffHunks
     (validB_sound _ _ _ _ (by decide))
-  have hm : renderLines oz.newlineOutput (splice (splitLines bytes) 0 [hk]) = result := by decide
+  have hm : Render.renderText oz.newlineOutput (splice (splitLines bytes) 0 [hk]) = result := by decide
   rw [hm] at h
   exact ⟨h.1, h.2.1, h.2.2.1⟩
 #guard fbak == str "f.bak" && (runPatch oz s0).2.fs.lookup (str "f.bak") == some (.file (str "a\nb\nc\n") 0o644)
@@ -603,9 +615,10 @@ theorem applies_prefix :
     (filler := []) (old := name) (new := name) (oldt := oldt) (newt := newt) (hs := [hk])
     { base := { operand := rfl, noOut := rfl, noReverse := rfl, noDefine := rfl, fuzz := by decide, quiet := rfl },
       file := { patchFile := rfl, noDir := rfl, noHelp := rfl, noVersion := rfl, noContext := rfl, noNormal := rfl, noEd := rfl } }
-    rfl rfl ⟨rfl, rfl, rfl, rfl, rfl, rfl⟩ rfl (by decide) (by decide) (by unfold DirsThere; decide) (by decide) (by decide) (by decide)
+    rfl rfl ⟨rfl, rfl, rfl, rfl, rfl, rfl⟩ rfl (by decide) (by decide) (by unfold DirsThere; decide) (by decide)
+    (notDir_of_none (by decide)) (by decide) (by decide)
     rfl (by decide) rfl (unifiedDiff_of_flat (by decide) (by decide) (by decide) diffHunks) (validB_sound _ _ _ _ (by decide))
-  have hm : renderLines oB.newlineOutput (splice (splitLines bytes) 0 [hk]) = result := by decide
+  have hm : Render.renderText oB.newlineOutput (splice (splitLines bytes) 0 [hk]) = result := by decide
   rw [hm] at h
   exact ⟨h.1, h.2.1, h.2.2.1, (h.2.2.2.1 _ (by decide) (by decide)).trans (by decide)⟩
 #guard bakf == str "bak/f" && (runPatch oB s0d).1 == 0 &&
@@ -644,12 +657,19 @@ def blocked : DState := { s0 with fs := { s0.fs with nodes := s0.fs.nodes ++ [(s
 #guard (runPatch Instance.oB blocked).1 == 2 && (runPatch Instance.oB blocked).2.fs.nodes == blocked.fs.nodes
 end NeedsBackupDirs
 
-/-! what is at the backup name does not matter: an old `f.orig` (even a directory, in the model) is replaced -/
+/-! what is at the backup name does not matter as long as it is not a directory: an old `f.orig` (a file; a link, which is not followed)
+    is replaced; a directory `f.orig` makes the `rename` fail (EISDIR): exit status 2, the tree untouched -/
 namespace BackupNameTaken
 open PatchModel.C01.Instance (name s0)
 def s1 : DState := { s0 with fs := { s0.fs with nodes := s0.fs.nodes ++ [(str "f.orig", .file (str "older\n") 0o600)] } }
 #guard (runPatch Instance.ob s1).1 == 0 &&
   (runPatch Instance.ob s1).2.fs.lookup (str "f.orig") == some (.file (str "a\nb\nc\n") 0o644)
+def s2 : DState := { s0 with fs := { s0.fs with nodes := s0.fs.nodes ++ [(str "f.orig", .symlink (str "victim")), (str "victim", .file (str "keep\n") 0o600)] } }
+#guard (runPatch Instance.ob s2).1 == 0 &&
+  (runPatch Instance.ob s2).2.fs.lookup (str "f.orig") == some (.file (str "a\nb\nc\n") 0o644) &&
+  (runPatch Instance.ob s2).2.fs.lookup (str "victim") == some (.file (str "keep\n") 0o600)
+def s3 : DState := { s0 with fs := { s0.fs with nodes := s0.fs.nodes ++ [(str "f.orig", .dir 0o755)] } }
+#guard (runPatch Instance.ob s3).1 == 2 && (runPatch Instance.ob s3).2.fs.nodes == s3.fs.nodes
 end BackupNameTaken
 
 /-! ### the rejected run: `f` = "x\ny\nz\n", the same diff -/
